@@ -24,7 +24,7 @@ def node_text(it):
     return '[#%s]' % ';'.join([it['name']] + list(it.get('anno', [])))
 
 
-def render(chain, explicit=None):
+def render(chain, explicit=None, extra=None):
     """string of a chain; `explicit` (rng) makes single bonds explicit ('-') at random"""
     def sym(o):
         if o == 1 and explicit is not None and explicit.random() < 0.15:
@@ -39,10 +39,12 @@ def render(chain, explicit=None):
         rings = sorted(it.get('rings', []), key=lambda r: r[0] >= 10)
         for rid, ro, opening in rings:
             s += (sym(ro) if opening else '') + rmark(rid)
+        if extra is not None:
+            s += extra(it)
         if (it.get('mult', 1) > 1 or it.get('show1')) and not it['branches']:
             s += '|%d' % it['mult']
         for b in it['branches']:
-            s += sym(b[0]['order']) + '(' + render(b, explicit) + ')'
+            s += sym(b[0]['order']) + '(' + render(b, explicit, extra) + ')'
         if (it.get('mult', 1) > 1 or it.get('show1')) and it['branches']:
             s += sym(it.get('morder', 1)) + '|%d' % it['mult']
     return s
